@@ -489,8 +489,10 @@ def sqrt_contracts(R, ctx, bound):
                     enc = pyk.eval_term(p.value.t, {iv: x})
                     if enc < 0:
                         enc += 1 << 32
-                    if enc != ctx.types.allele_pair_sqrt(x):
-                        raise HarnessError(f'Scala allelePairSqrt({x}) (symbolic evaluation) = {enc} differs from the Python kernel')
+                    kind, conc = scalak.run_concrete(ctx.P, 'Genotype', 'allelePairSqrt', [x])
+                    R.validation_points += 1
+                    if kind != 'ok' or (conc & 0xFFFFFFFF) != enc:
+                        raise HarnessError(f'Scala allelePairSqrt({x}): symbolic evaluation {enc} != concrete evaluation {kind, conc}')
 
 
 def scala_bijection(R, ctx, bound):
